@@ -448,6 +448,9 @@ func SelectedField(info *types.Info, e ast.Expr) *types.Var {
 	}
 	if s, ok := info.Selections[sel]; ok && s.Kind() == types.FieldVal {
 		v, _ := s.Obj().(*types.Var)
+		if v != nil {
+			return v.Origin() // fields of generic types are copied per instantiation; identify them by their declaration
+		}
 		return v
 	}
 	return nil
